@@ -139,7 +139,7 @@ fn rand_unit(r: &mut Rng) -> [f64; 3] {
 fn rand_chain_q(r: &mut Rng, scale: f64) -> Vec<Elem> {
     let ang = |r: &mut Rng| -> Float {
         match r.below(3) {
-            0 => *r.pick(&[0.0, 90.0, -90.0, 180.0, 270.0, 45.0, 30.0, 360.0]) as Float,
+            0 => *r.pick(&[0.0, 90.0, -90.0, 180.0, 270.0, 45.0, 30.0, 360.0, -180.0, -270.0, -360.0, 450.0, -450.0, 135.0]) as Float,
             _ => r.range(-360.0, 360.0) as Float,
         }
     };
@@ -511,6 +511,13 @@ fn corpus() -> Vec<(Spec, Vec<(usize, [f64; 6])>)> {
          vec![(3, [3.0, 0.0, -1.0, -1.0, 0.0, 0.0]), (4, [3.0, 0.0, 1.0, -1.0, 0.0, 0.0])]),
         (Spec { shape: 1, variant: 0, args: vec![0.0, 0.0, 0.0, 2.0, 0.0, 0.0, 0.5], chain: vec![] },
          vec![(3, [1.0, 3.0, 0.0, 0.0, -1.0, 0.0]), (4, [1.0, 0.0, 3.0, 0.0, 0.0, -1.0])]),
+        // cylinders along -X whose Y offset is a NEGATIVE zero (an end point obtained as p0 + (1,0,0) * -len): the azimuth of the
+        // axis is atan2(-0.0, -len) = -180 degrees exactly (seeded change C02-m5: exact quarter turns through a sign-keeping `%`)
+        (Spec { shape: 1, variant: 0, args: vec![1.0, 0.0, 0.5, -1.5, -0.0, 0.5, 0.75], chain: vec![] },
+         vec![(3, [-0.2, 3.0, 0.5, 0.0, -1.0, 0.0]), (4, [-0.2, 3.0, 0.7, 0.0, -1.0, 0.0]), (4, [0.3, 0.2, 3.0, 0.0, 0.0, -1.0]), (3, [-1.0, -2.0, -1.0, 0.0, 1.0, 0.7]),
+              (4, [3.0, 0.1, 0.6, -1.0, 0.0, 0.0])]),
+        (Spec { shape: 1, variant: 1, args: vec![0.0, 0.0, 0.0, -2.0, -0.0, 0.0, 0.5, 200.0], chain: vec![] },
+         vec![(3, [-1.0, 3.0, 0.1, 0.0, -1.0, 0.0]), (4, [-0.5, 0.1, 3.0, 0.0, 0.0, -1.0]), (4, [-1.5, -3.0, -0.2, 0.0, 1.0, 0.0])]),
         // half sphere (upper), ray from below: first crossing clipped away, second reported
         (Spec { shape: 0, variant: 1, args: vec![1.0, 0.0, 0.0, 0.0, 0.0, 1.0, 360.0], chain: vec![] },
          vec![(3, [0.1, 0.2, -3.0, 0.0, 0.0, 1.0]), (4, [0.1, 0.2, -3.0, 0.0, 0.0, 1.0]), (4, [0.1, 0.2, 3.0, 0.0, 0.0, -1.0])]),
@@ -550,7 +557,36 @@ pub fn run(stream: &str, seed: u64, n: usize, out: &str) {
         while k < nextra && sink.len() < n {
             k += 1;
             let rad = rand_radius(&mut y);
-            if y.chance(0.4) {
+            let fam = y.below(5);
+            if fam == 4 {
+                // (c) shallow rays in long pipes: within 1e-5 .. 3e-3 rad of the axis of a cylinder that is long enough for the ray to
+                //     reach the wall inside [zmin, zmax] (or starting very close to the wall): a clear crossing, far from tangency,
+                //     rims and zero distance (seeded change C03-m5: an "along the axis" bail-out built on is_parallel's 1e-5)
+                let th = (10.0f64).powf(y.range(-5.0, -2.52));
+                let len = rad / th * y.range(2.5, 6.0);
+                let z0 = y.range(-1.0, 1.0) * rad;
+                let chain = if y.chance(0.5) { vec![] } else { rand_chain_q(&mut y, rad) };
+                let s = Spec { shape: 1, variant: 2, args: vec![rad as Float, z0 as Float, (z0 + len) as Float, 360.0], chain };
+                let b = build(&s);
+                emit_ctor(&mut sink, &s, &b);
+                let obj = match &b { Ok(o) => o.clone(), Err(_) => continue };
+                let g = geom(&obj);
+                if !(g.0 > 0.0) { continue; }
+                let t = obj.transform();
+                for _ in 0..3 {
+                    let psi = y.range(0.0, 2.0 * PI); let up = y.chance(0.5);
+                    let rho = if y.chance(0.5) { g.0 * y.range(0.0, 0.9) } else { g.0 * (1.0 - (10.0f64).powf(-y.range(1.0, 4.0))) };
+                    let a0 = y.range(0.0, 2.0 * PI);
+                    let zs = if up { g.1 + (g.2 - g.1) * y.range(0.02, 0.2) } else { g.2 - (g.2 - g.1) * y.range(0.02, 0.2) };
+                    let o = [rho * a0.cos(), rho * a0.sin(), zs];
+                    let sc = *y.pick(&[1.0, 1.0, 0.01, 50.0]);
+                    let d = [sc * th.sin() * psi.cos(), sc * th.sin() * psi.sin(), sc * th.cos() * if up { 1.0 } else { -1.0 }];
+                    let (ray, op) = if y.chance(0.4) { (to_world(&None, &o, &d), 1usize) } else { (to_world(&t, &o, &d), *y.pick(&[3usize, 4])) };
+                    emit_hit(&mut sink, &s, &obj, op, 95, &ray, zero, zero, None);
+                }
+                continue;
+            }
+            if fam < 2 {
                 let c = |y: &mut Rng| -> Float { ((10.0f64).powf(y.range(-13.0, -5.0)) * if y.chance(0.5) { 1.0 } else { -1.0 }) as Float };
                 let radius = if y.chance(0.5) { rad } else { (10.0f64).powf(y.range(-5.0, -3.0)) };
                 let s = if y.chance(0.6) { Spec { shape: 0, variant: 0, args: vec![radius as Float, c(&mut y), c(&mut y), c(&mut y)], chain: vec![] } }
